@@ -217,6 +217,16 @@ void do_free(void *p)
 {
     if (!p)
         return;
+    // the hook may itself allocate and free: call it before taking the lock
+    if (on_free) {
+#if !SIM_ASAN
+        Hdr *hh = (Hdr *)p - 1;
+        if (hh->magic == MAGIC_LIVE)
+            on_free(p, hh->size);
+#else
+        on_free(p, 0);
+#endif
+    }
     Lock l;
 #if !SIM_ASAN
     Hdr *h = (Hdr *)p - 1;
@@ -232,8 +242,6 @@ void do_free(void *p)
     }
     if (!tail_ok(h) && !g_violation)
         g_violation = "guard-damage";
-    if (on_free)
-        on_free(p, h->size);
     if (h->prev) {
         h->prev->next = h->next;
         h->next->prev = h->prev;
@@ -259,8 +267,6 @@ void do_free(void *p)
         --g_live_blocks;
         g_live_bytes -= s;
     }
-    if (on_free)
-        on_free(p, s);
     std::free(p);
 #endif
 }
